@@ -121,6 +121,12 @@ func checkPrefixValidator(p *Program, r *Report, regs map[string]*RegexConst, fn
 		r.Undec("C14.R4", c, pos, "nil-error condition not summarisable: "+why)
 		return
 	}
+	if len(s.Inexact) > 0 {
+		// a guard on the way (typically the URL guard that C11 decides) could not be modelled: whatever the
+		// remaining guards allow is not a finding about this validator
+		r.Undec("C14.R4", c, pos, "a guard of the validator could not be modelled: "+s.Inexact[0])
+		return
+	}
 	L := NewLang()
 	if err := registerSumm(L, s, cond); err != nil {
 		r.Undec("C14.R4", c, pos, err.Error())
